@@ -38,8 +38,8 @@ type verifWALModel struct {
 	wf           *os.File
 
 	txSize      uint32 // size the transaction being written will commit (0: unknown / uncommitted)
-	anyValidity bool // frames may carry a wrong salt or checksum
-	wholeFrames bool // frames are written with one write instead of header + body
+	anyValidity bool   // frames may carry a wrong salt or checksum
+	wholeFrames bool   // frames are written with one write instead of header + body
 }
 
 func (m *verifWALModel) header() []byte {
